@@ -561,7 +561,8 @@ func (in *c14sInst) key() string {
 					tg = append(tg, k+"="+strconv.Itoa(v))
 				}
 				for k, v := range pi.decaying {
-					tg = append(tg, "~"+k.name+"="+strconv.Itoa(v.Value)+"/next="+strconv.Itoa(int(k.nextTick.Sub(now)/time.Millisecond)))
+					tg = append(tg, "~"+k.name+"="+strconv.Itoa(v.Value)+"/next="+strconv.Itoa(int(k.nextTick.Sub(now)/time.Millisecond))+
+						seqmc.ExtraFields(k, "trkr", "name", "interval", "nextTick", "decayFn", "bumpFn", "closed"))
 				}
 				sort.Strings(tg)
 				for _, t := range tg {
@@ -582,6 +583,8 @@ func (in *c14sInst) key() string {
 					b = append(b, c...)
 					b = append(b, ',')
 				}
+				// fields a later version adds to the entry join the key (see seqmc.ExtraFields)
+				b = append(b, seqmc.ExtraFields(pi, "id", "tags", "decaying", "value", "temp", "conns", "firstSeen")...)
 				b = append(b, ';')
 			}
 		}
@@ -615,6 +618,10 @@ func (in *c14sInst) key() string {
 	b = c14sAppRel(b, now, lt, 10*time.Second)
 	b = append(b, "|lastTick="...)
 	b = c14sAppRel(b, now, *cm.decayer.lastTick.Load(), time.Hour)
+	b = append(b, seqmc.ExtraFields(cm, "decayer", "clock", "cfg", "segments", "plk", "protected", "trimMutex", "connCount", "trimCount",
+		"lastTrimMu", "lastTrim", "refCount", "ctx", "cancel", "unregisterMemoryWatcher")...)
+	b = append(b, seqmc.ExtraFields(cm.decayer, "cfg", "mgr", "clock", "tagsMu", "knownTags", "lastTick", "bumpTagCh", "removeTagCh",
+		"closeTagCh", "closeCh", "doneCh", "err")...)
 	b = append(b, "|M:"...)
 	b = in.m.appendSnap(b)
 	return string(b)
